@@ -108,7 +108,9 @@ pub fn c03_deep_case(seed: u64, case: u64) -> CaseResult {
         Outcome::Ok(f) => {
             let o = observe(&f);
             if o.broken || !o.doc_ok {
-                res.viol("C08", "deep-reopened-replica-aborts", format!("depth {} place {}: the replica reopened after a successful commit answers {}", depth, place, trunc(&o.doc, 300)));
+                if o.broken || o.doc.starts_with("PANIC") {
+                    res.viol("C08", "deep-reopened-replica-aborts", format!("depth {} place {}: the replica reopened after a successful commit answers {}", depth, place, trunc(&o.doc, 300)));
+                }
                 res.viol("C03", "deep-reopen-differs", format!("depth {} place {}: the replica reopened after a successful commit cannot show the committed document: {}", depth, place, trunc(&o.doc, 200)));
             } else if o.s_value(false) != live.s_value(false) || o.anchors != live.anchors || o.doc != exp1 {
                 res.viol("C03", "deep-reopen-differs", format!("depth {} place {}: {}", depth, place, trunc(&live.diff(&o), 400)));
